@@ -44,7 +44,7 @@ b("C07", MK, "            return downstream == Mask.FLEX or upstream == Mask.NON
 b("C07", "data/tools/info.py", "        if not u1_none and (u2_none or not compatible_units(u1, u2)):\n", "        if not u1_none and not u2_none and False:\n", "unit conflicts not detected")
 b("C07", O, "                self._output_info.grid = info.grid\n", "                self._output_info.grid = None if info.grid is None else info.grid.copy()\n                self._output_info.grid = self._output_info.grid if not hasattr(info.grid, 'axes_reversed') else type(info.grid).__mro__[0].copy(info.grid)\n", "placeholder-copy (equivalent)")
 # ---- C08
-b("C08", O, "            t_half = t_prev + diff / 2\n", "            t_half = t_prev + diff / 3\n", "nearest selection biased")
+b("C08", O, "            if time - t_prev < t - time:\n", "            if 2 * (time - t_prev) < t - time:\n", "nearest selection biased")
 b("C08", O, "                if np.may_share_memory(d.data, xdata.data):\n", "                if False:\n", "shared-memory publications accepted")
 b("C08", CO, "                data = data.reshape(\n                    [1] + list(info.grid.data_shape), order=info.grid.order\n                )\n", "                data = data.reshape([1] + list(info.grid.data_shape), order=\"C\")\n", "flat payloads reshaped in C order")
 b("C08", "sdk/input.py", "        if conv is not None:\n            self.logger.profile(\n                \"converted units from %s to %s (%d entries)\", *conv, data.size\n            )\n        tools.check(data, self._input_info)\n", "        tools.check(data, self._input_info)\n        if conv is not None and data.size > 3:\n            data = data * 1.0000001\n", "unit conversion slightly off for larger arrays")
@@ -66,6 +66,8 @@ b("C11", T, "    return old_value + dt * (new_value - old_value)\n", "    return
 b("C11", T, "        while len(self.data) > 1 and self.data[1][0] <= time:\n", "        while len(self.data) > 1 and self.data[0][0] <= time:\n", "buffer cleared too far")
 b("C11", T, "        if time_range[1] is not None and time > time_range[1]:\n", "        if time_range[1] is not None and False:\n", "requests after the newest publication are served (extrapolation)")
 b("C11", T, "    return old_value + dt * (new_value - old_value)\n", "    return old_value if np.allclose(getattr(old_value, \"magnitude\", old_value), getattr(new_value, \"magnitude\", new_value)) else old_value + dt * (new_value - old_value)\n", "linear interpolation short-cut when the neighbours are np.allclose (wrong for values ~1e-9)")
+b("C08", O, "            if time - t_prev < t - time:\n", "            if time < t_prev + (t - t_prev) / 2:\n", "nearest publication chosen by a midpoint rounded to microseconds (original defect F14)")
+b("C17", UN, "        xdata = UNITS.Quantity(magn.astype(float), xdata.units)\n", "        pass\n", "integer payloads converted within their own integer type (original defect F15)")
 # ---- C12
 b("C12", TI, "            dt1 = max((self._prev_time - t_old) / time_range, 0.0)\n            dt2 = min((time - t_old) / time_range, 1.0)\n\n            if self._step is None:\n                v1 = interpolate(v_old, v_new, dt1)\n                v2 = interpolate(v_old, v_new, dt2)\n                value = (dt2 - dt1) * 0.5 * (v1 + v2)\n            else:\n                dt1_c = min(dt1, self._step)\n                dt2_c = max(self._step, dt2)\n                value = (min(self._step, dt2) - dt1_c) * v_old + (\n                    dt2_c - max(self._step, dt1)\n                ) * v_new\n\n            value *= time_range.total_seconds()", "            dt1 = (self._prev_time - t_old) / time_range\n            dt2 = min((time - t_old) / time_range, 1.0)\n\n            if self._step is None:\n                v1 = interpolate(v_old, v_new, dt1)\n                v2 = interpolate(v_old, v_new, dt2)\n                value = (dt2 - dt1) * 0.5 * (v1 + v2)\n            else:\n                dt1_c = min(dt1, self._step)\n                dt2_c = max(self._step, dt2)\n                value = (min(self._step, dt2) - dt1_c) * v_old + (\n                    dt2_c - max(self._step, dt1)\n                ) * v_new\n\n            value *= time_range.total_seconds()", "AvgOverTime: missing clamp of the interval start")
 b("C12", TI, "        self._clear_cached_data(self._prev_time)\n", "        self._clear_cached_data(time)\n", "drops an interval that is still needed")
